@@ -294,7 +294,11 @@ func (c *Ctx) ruleInputImmutable(rule string, pkgPrefix []string, min int) {
 	r := c.R
 	e := c.ownEng()
 	r.Rule(rule, "no function on the decode side (reachable from the parse entry points) writes, copies into, appends in place to or mutates a []byte parameter or anything derived from it", min)
-	r.Rule(rule+".retained", "fields of decoded objects that retain a sub-slice of the input are not written through by any function of the module", 5)
+	rmin := 5
+	if min < 60 {
+		rmin = 0
+	}
+	r.Rule(rule+".retained", "fields of decoded objects that retain a sub-slice of the input are not written through by any function of the module", rmin)
 	var roots []*ssa.Function
 	for _, k := range decodeEntryPoints {
 		ok := false
